@@ -57,6 +57,10 @@ def conc_runs(ctx, jobs):
             args += ["-fault", j["fault"]]
         if j.get("fat"):
             args += ["-fat", str(j["fat"])]
+        if j.get("huge"):
+            args += ["-huge", str(j["huge"])]
+        if j.get("nkeys"):
+            args += ["-nkeys", str(j["nkeys"])]
         s = run_driver(args, timeout=600)
         s["path"] = out
         s["cmd"] = " ".join(args)
